@@ -454,6 +454,7 @@ def execute(sim, doc):
     d = tw.tree_diff(tree, one["tree"])
     if d:
         kind, p = d[0]
+        st["diff_paths"] = [q for _, q in d[:200]]
         return {"class": "not_converged", "first": "%s %s" % (kind, p.replace("/w/", "")), "n_diffs": len(d)}, st
     # O2: regenerations born after the last edit only write what a clean one-shot writes
     clean = sim.run(tw.oneshot_spec(final_inputs(doc), doc["cwd"]), mapseed=doc["mapseed"])
